@@ -7,7 +7,7 @@ for d in seeded/C*/; do
   sid=$(basename $d)
   checks=$(python3 -c "import json;print(json.load(open('$d/meta.json'))['detected_by']['checks'].split(',')[0].strip())")
   [ -z "$(git -C /repo status --porcelain)" ] || { echo "/repo not clean"; exit 2; }
-  if ! git -C /repo apply "$d/patch.diff" 2>/dev/null; then echo "$sid PATCH-DOES-NOT-APPLY"; continue; fi
+  if ! git -C /repo apply "/verif/$d/patch.diff" 2>/dev/null; then echo "$sid PATCH-DOES-NOT-APPLY"; continue; fi
   out=$(./check $checks $TIER 2>&1); rc=$?
   nv=$(echo "$out" | grep -c "^VIOLATION")
   git -C /repo checkout -- .
